@@ -15,6 +15,7 @@ import (
 const (
 	truncBatches  = 12
 	clientBatches = 4
+	mitmBatches   = 2
 )
 
 func main() {
@@ -23,7 +24,7 @@ func main() {
 		ID:    "C03",
 		Level: "fault_enumeration",
 		Rule: "fault cases: every canned origin response (Content-Length and chunked, 0 B-64 KiB) cut at every offset k (all k up to 600 B; beyond that all k in the head, +-8 around every chunk boundary, 64 PRNG offsets in the body), " +
-			"dial refused / dial error / accept-then-close / non-HTTP bytes / status line + garbage, and hostile client byte streams; each followed by a healthy request (same connection if open, fresh connection for hostile clients). " +
+			"dial refused / dial error / accept-then-close / non-HTTP bytes / status line + garbage, and hostile client byte streams (against a plain proxy and against a MITM-configured proxy: CONNECT then close / half TLS record / garbage / plain HTTP / real TLS handshake then garbage or close); each followed by a healthy request (same connection if open, fresh connection for hostile clients). " +
 			"A class is (framing x region of k or fault kind x sequential/pipelined x cold/warm upstream connection x observed follow-up outcome) resp. (hostile stream kind x what the proxy did with it), counted after the client-side stream oracle ran",
 		Assumptions: []string{
 			"a failure with k >= |head| may be answered either by an incomplete response followed by close or by a well-formed 502 (the statement's disjunction); k < |head| must give the 502",
@@ -40,6 +41,11 @@ func main() {
 			bs = append(bs, vh.Batch{Name: "tcp", TimeoutS: 1500})
 			for i := 0; i < clientBatches; i++ {
 				bs = append(bs, vh.Batch{Name: fmt.Sprintf("client-%d", i), TimeoutS: 1500})
+			}
+			// hostile clients against a MITM-configured proxy: own children, so
+			// that a proxy crash there does not take other results with it
+			for i := 0; i < mitmBatches; i++ {
+				bs = append(bs, vh.Batch{Name: fmt.Sprintf("mitm-%d", i), TimeoutS: 1500})
 			}
 			return bs
 		},
@@ -62,6 +68,10 @@ func run(r *vh.Run, batch string) {
 		var child int
 		fmt.Sscanf(batch, "client-%d", &child)
 		runClientBatch(r, child)
+	case strings.HasPrefix(batch, "mitm-"):
+		var child int
+		fmt.Sscanf(batch, "mitm-%d", &child)
+		runMitmBatch(r, child)
 	}
 }
 
@@ -78,7 +88,11 @@ func replay(r *vh.Run, raw json.RawMessage) {
 	case "client":
 		var c clientCase
 		json.Unmarshal(raw, &c)
-		runClientCase(r, c)
+		if strings.HasPrefix(c.Stream, "mitm-") {
+			runMitmCase(r, c)
+		} else {
+			runClientCase(r, c)
+		}
 	default:
 		r.Inconclusive("unreplayable case", string(raw))
 	}
